@@ -340,6 +340,10 @@ where
                 Ok(())
             }
             DataToken::SequenceEnd => {
+                // the saved header no longer applies once the sequence
+                // (or the encapsulated pixel data) is over,
+                // so that items which follow are not taken for pixel data fragments
+                self.last_de = None;
                 // only write if it's an unknown length sequence
                 if let Some(seq_start) = self.seq_tokens.pop() {
                     if seq_start.typ == SeqTokenType::Sequence && seq_start.len.is_undefined() {
